@@ -15,10 +15,14 @@ PIPES = {
     "C08": ["prog", "exact"],
     "C09": ["prog", "exact"],
     "C10": ["prog"],
+    "C11": ["lines", "seqs"],
+    "C16": ["lines"],
+    "C19": ["lines", "seqs"],
+    "C20": ["regex"],
     "C17": ["render"],
     "C18": ["render"],
 }
-LEVEL = {"C17": "exploration", "C18": "exploration"}
+LEVEL = {"C17": "exploration", "C18": "exploration", "C16": "exploration", "C19": "exploration"}
 
 
 def _pipe(name):
